@@ -20,7 +20,7 @@ from vf import core
 from vf.gen import reactions as RG
 
 ID = 'C08'
-N = {'quick': 6000, 'thorough': 100000}
+N = {'quick': 12000, 'thorough': 250000}
 NT_RULE = ('reactions with 1-4 reactants/products, coefficients 0.25-4, 0-2 TS species, species any mix of '
            'StatMech / Nasa / Nasa9 / Shomate; Reaction, ChemkinReaction, SurfaceReaction; T 250-3500 K, P, '
            'per-species <name>_kwargs blocks; all (rev, act).  non-trivial = fractional coefficient or TS or a '
